@@ -133,9 +133,9 @@ INFO = {
         "trusted": ["Polynomial<BigRational> / Vec<Vec<BigRational>> / Vec<Vec<Vec<BigInt>>> identified with List Rat / List (List Rat) / List (List (List Int))",
                     "an order is passed as its stored basis and rebuilt with Order::from_basis (the field is private); the oracle applies when that basis is in stored form, which C15 checks to be a fixed point of from_basis",
                     "the table is read back through MultTable::mul on unit vectors (cross-checked against its Debug rendering on every case)"],
-        "gaps": ["multiplication tables (get_mult_table, MultTable::mul/trace/norm/inv, to_z_basis): certified on every explored case by Spec.Field (products of basis vectors by rational long division, trace/determinant of the multiplication matrix in the power basis, Res(f,g)/lc(f)^deg g by the Sylvester determinant, a*b = d by field arithmetic); theorems outstanding"],
+        "gaps": ["norm of g(theta) = Res(f, g) / lc(f)^deg g is not a theorem (certified on every explored case by Spec.Field through the Sylvester determinant); trace/norm are stated for the matrix of multiplication-by-a in the order basis (regular_is_mult_matrix), not as basis-free LinearMap.trace/det"],
         "assumptions": ["f canonical of degree >= 1, operands reduced (canonical, degree < n); for the table clauses: the lattice is closed under multiplication and contains 1 (w_0 = 1), dimension = degree of f; inv: the multiplication map of a is invertible (a non-zero in a field)"],
-        "level_text": "Theorems for every f of degree n >= 1 (any non-zero leading coefficient) and all reduced operands about the Lean model of algebraic.rs: the product is the remainder of the polynomial product modulo f, canonical of degree < n, and no assertion fires; sums and differences; commutativity, associativity, distributivity, units as equalities of the stored lists; binary exponentiation computes a^e mod f, a^(s+t) = a^s a^t, (ab)^s = a^s b^s. The multiplication-table clauses are certified per explored case by independent oracles; the model of order.rs / mult_table.rs is compared textually with the implementation.",
+        "level_text": "Theorems for every f of degree n >= 1 (any non-zero leading coefficient) about the Lean model of algebraic.rs, order.rs (get_mult_table) and mult_table.rs: the product in Q[x]/(f) is the remainder of the polynomial product, ring laws, exponent laws; for every non-singular basis matrix: get_mult_table succeeds exactly when the lattice is closed under multiplication (else the integrality assertion fires) and its entries are the coordinates of the products of basis vectors; MultTable::mul agrees with the quotient-ring product on coordinate vectors; `regular t a` is the matrix of multiplication by a; trace and norm are its trace and determinant (exact integers), trace additive, norm multiplicative; inv returns (b, |norm a|) with a*b = |norm a| whenever norm a != 0 and w_0 = 1 (norm != 0 for every non-zero a when f is irreducible). Model tied to the code by differential testing; outputs also decided by independent oracles.",
         "level_note": "Trusted: Lean kernel + 3 standard axioms; Mathlib polynomials; BigInt/BigRational identified with Int/Rat; correspondence generator coverage. Partial: table clauses certified per explored case, not proved.",
     },
     "C15": {
@@ -165,9 +165,9 @@ INFO = {
         "rulefn": _field_rule,
         "trusted": ["maximality of the order is not re-verified here (C06); the oracle checks that B is a ring basis with first vector 1 containing Z[theta] and that its structure constants are T",
                     "Ideal has no accessor for its HNF: the harness reads it from the derived Debug output and re-validates each extraction with HNF::new(rows) == rows"],
-        "gaps": ["closure of sums/products under the order, product = lattice of pairwise products, commutativity/associativity/distributivity, norm multiplicativity, norm of a principal ideal, cap_z, I*I^-1 = (d), d^n/norm(numer(D)) = |disc|: certified on every explored case by Spec.Ideal (exact lattice computations, spec-side products)"],
+        "gaps": ["norm multiplicativity, norm of a principal ideal = |norm of the generator|, I * I^-1 = (d) for the inverse routine and d^n / norm(numer(D)) = |disc| for the inverse different are not theorems (Dedekind-domain facts): certified on every explored case by Spec.Ideal (exact lattice computations, spec-side products)"],
         "assumptions": ["ideals of a maximal order given by HNF bases relative to an integral basis whose first vector is 1"],
-        "level_text": "Theorems (via the HNF theory of C02): the sum is the canonical form of the lattice generated by both arguments, the norm is the lattice index, membership is sum-invariance. The ring-theoretic clauses (Dedekind-domain facts) are certified per explored case by an independent oracle; all outputs are canonical HNFs and are compared textually with the model.",
+        "level_text": "Theorems about the Lean model of ideal.rs for every multiplication table of the right shape (ring axioms of the table where stated, as the decidable predicate TableRing): sum = smallest lattice containing both; product = lattice spanned by all pairwise products (never an error); product commutative and associative and distributive over sum as equalities of the returned HNFs; principal ideals, sums and products of O-ideals are O-ideals; `contains` answers true exactly for members of the lattice; cap_z is the positive generator of the ideal's integers; norm = lattice index. Model tied to the code by differential testing (canonical HNF outputs compared textually) and each output decided by an independent oracle.",
         "level_note": "Trusted: Lean kernel + 3 standard axioms; correspondence coverage. Partial: ring-theoretic clauses are certified per explored case, not proved.",
     },
     "C17": {
@@ -218,19 +218,18 @@ INFO = {
         "rule": "primitives of prim.rs (divrem, gcd, modpow, ext-gcd witness, x-a division, evaluation) on random and edge inputs; find_linear_factors on every polynomial up to a degree bound over F_2..F_13, random f of degree <= 12 over primes up to 2^61 (and beyond 2^64) built as c*prod (x-r_i)^e_i * g with g root-free by construction; scripted histories where the drawn shift is a root and where draws never split; the random history of every run is replayed into the model. Non-trivial: polynomial of degree >= 2; distinct = distinct (op,args incl. history).",
         "rulefn": _pm_rule,
         "trusted": _PM_TRUST,
-        "gaps": ["the returned multiset equals the roots of f in F_p with multiplicity (soundness and completeness of the gcd splitting, Euler criterion): certified on every explored case by brute force (p <= 2000) or by exact division by the planted roots and gcd(x^p - x, cofactor) = 1; termination is probabilistic"],
+        "gaps": ["termination (that a long enough random stream ends the recursion) is probabilistic and not addressed: the theorems are about runs that return, for every stream"],
         "assumptions": ["p prime, f mod p non-zero"],
-        "level_text": "Theorems: every drawn shift is in [0,p) for every RNG stream, the root test and the modular inverse used by the routine are correct (congruence / Fermat). The multiset equality itself is certified per explored case by an independent oracle; the model is tied to linear.rs and prim.rs by replaying the captured random history.",
+        "level_text": "Theorems for every prime p, every f with f mod p non-zero and EVERY stream of random draws, about the Lean model of linear.rs and prim.rs (the stream is an explicit argument): if find_linear_factors returns res then every value is in [0,p), every value is a root and prod (x - r) divides f mod p, and the multiset of res equals Mathlib's Polynomial.roots of f over ZMod p (with multiplicity); hence empty when f has no root, of length deg when f splits, and two histories give permutations of one another; p = 2 branch included; poly_gcd is a greatest common divisor. Model tied to the code by replaying the captured random history of every run; each implementation output also decided by an independent oracle.",
         "level_note": "Trusted: Lean kernel + 3 standard axioms; RNG hook/decoder; correspondence coverage. Partial: the root multiset statement is certified per explored case, not proved.",
     },
     "C11": {
         "rule": "lift_factorization on c built from known distinct monic irreducibles mod p (brute-force enumeration for small p; linear and x^2-n factors for large p) times a unit plus p*noise; p in {2,3,5,7,13,101,2^61-1}, e <= 12, 1..8 factors, non-monic c, negative coefficients; poly_coprime_witness on coprime and non-coprime pairs; precondition violations (repeated factor, p | lc, e = 0) are run through the model only. Non-trivial: polynomial of degree >= 2.",
         "rulefn": _pm_rule,
         "trusted": _PM_TRUST,
-        "gaps": ["the model-level statement lift_spec (g_i monic, in [0,p^e), g_i = f_i mod p, prod g_i = c/lc mod p^e) is certified on every explored case; the algebraic step is a theorem in Z[X] but its instantiation on the list model (refinement of poly_divrem / poly_mod) is outstanding",
-                 "a*u + b*v = 1 mod p for the witness: certified per case"],
+        "gaps": ["irreducibility of the given modular factors is used only through pairwise coprimality over F_p, which is the stated hypothesis of the theorem; the correspondence covers the cases outside the hypotheses (non-coprime factors, p | lc c) textually only"],
         "assumptions": ["p prime, p not dividing lc(c), c squarefree mod p, factors = its distinct monic irreducible factors"],
-        "level_text": "Theorems: the algebraic core of hensel_lift in Z[X] for an arbitrary quotient (c = ab mod q, au+bv = 1 mod r, r | q imply c = a1 b1 mod qr, a1 = a, b1 = b mod q) and the e = 1 case of the model. The full conclusion is certified per explored case; deterministic code, model compared textually.",
+        "level_text": "Theorems for every prime p, e >= 1, c with p not dividing lc(c) and every non-empty list of monic, reduced, pairwise coprime (over F_p) factors with c = lc(c) * prod f_i mod p, about the Lean model of hensel.rs and prim.rs: lift_factorization returns (never an error) a list g_i of the same length and order with every g_i monic, canonical, with coefficients in [0, p^e), deg g_i = deg f_i, g_i = f_i mod p, and lc(c) * prod g_i = c mod p^e (equivalently prod g_i = c * lc(c)^-1); e = 1 returns the factors unchanged; poly_coprime_witness returns u, v with a*u + b*v = 1 mod p for every coprime pair (also for unreduced monic inputs as used inside the lift); one hensel_lift call lifts a two-factor congruence for any quotient. Model tied to the code by differential testing (deterministic code, textual comparison) and every implementation output re-checked by an independent oracle.",
         "level_note": "Trusted: Lean kernel + 3 standard axioms; correspondence coverage. Partial: see gaps.",
     },
     "C08": {
